@@ -236,10 +236,10 @@ class ConcatSignal(Module):
         dx = _split_from_array(dy, self.cumlens)
         for i, s in enumerate(self.sig_in):
             if not isinstance(dsens[i], type(s.state)):
-                dsens[i] = type(s.state)(dx[i])
+                dsens[i] = type(s.state)(dx[i].item() if dx[i].size == 1 else dx[i])
                 continue
             try:
                 dsens[i][...] = dx[i]
             except TypeError:
-                dsens[i] = type(s.state)(dx[i])
+                dsens[i] = type(s.state)(dx[i].item() if dx[i].size == 1 else dx[i])
         return dsens
